@@ -173,7 +173,16 @@ pub fn run(cx: &Ctx) {
             }
         }
     }
-    cx.run_list(&Parallel, grid, "lengths {0,1,2,3,7,64,1000,10^4} x pools {1,2,3,4,8,16} x 8 splittings x {par_iter, into_par_iter} x 3 repetitions");
+    // chunks longer than 2^16 elements (u32/u64 products of sample sizes): one long input, few configurations
+    {
+        let n = 200_000;
+        let pl = gen::Placement { shape: 7, order: 0, ls: 0.3, lk: Some(1.0), neg: false };
+        let xs = gen::bulk_dataset(n, r.next(), &pl);
+        for (t, split, bv) in [(1usize, 0u8, false), (2, 0, true), (16, 0, false), (4, 7, false)] {
+            grid.push(Par { xs: xs.clone(), threads: t, split, by_value: bv, reps: 1 });
+        }
+    }
+    cx.run_list(&Parallel, grid, "lengths {0,1,2,3,7,64,1000,10^4} (+ one trending input of 2*10^5 on 4 configurations) x pools {1,2,3,4,8,16} x 8 splittings x {par_iter, into_par_iter} x 3 repetitions");
     cx.label("generated");
     let strat = || {
         (gen::dataset(1, 3000, 20000, 11.9), proptest::sample::select(THREADS.to_vec()), 0u8..8, any::<bool>()).prop_map(|(xs, threads, split, by_value)| Par { xs, threads, split, by_value, reps: 2 })
